@@ -1,6 +1,7 @@
 package drivers
 
 import (
+	"github.com/sheerbytes/sheerbytes/internal/transfer"
 	"bytes"
 	"context"
 	"encoding/binary"
@@ -214,6 +215,46 @@ func DumbWire(args []string) {
 				outcomes["error"]++
 			default:
 				outcomes["ok"]++
+			}
+		}
+		// the multi-connection receive (thru join --dumb with several connections): every connection delivers the same
+		// stream; when it ends early on all of them the call must come back with an error
+		if i%5 == 0 {
+			var conns []transfer.Conn
+			var pairs []*vnet.Pair
+			for k := 0; k < 3; k++ {
+				p := vnet.NewPair(vnet.Options{Mock: true})
+				pairs = append(pairs, p)
+				st, err := p.End(vnet.A).OpenStream(context.Background())
+				if err == nil {
+					go func() { st.Write(data); st.Close() }()
+				}
+				conns = append(conns, p.End(vnet.B))
+			}
+			done := make(chan error, 1)
+			ctx, cancel := context.WithCancel(context.Background())
+			go func() { done <- app.VerifRecvDumbDiscardMulti(ctx, conns) }()
+			res.Behaviours++
+			res.Steps++
+			sig := map[string]any{"mode": "dumb", "cut": row.Cut, "via": "three connections"}
+			replay := map[string]any{"row": row, "via": "three connections", "bytes_delivered_per_connection": len(data)}
+			select {
+			case err := <-done:
+				if row.MustReject && err == nil {
+					outcomes["accepted_incomplete"]++
+					sig["kind"] = "incomplete_record_accepted"
+					res.AddViolation(sig, replay)
+				} else {
+					outcomes["multi: returned"]++
+				}
+			case <-time.After(15 * time.Second):
+				outcomes["hung"]++
+				sig["kind"] = "does_not_return_after_the_input_ended"
+				res.AddViolation(sig, replay)
+			}
+			cancel()
+			for _, p := range pairs {
+				p.Shutdown()
 			}
 		}
 		// the sending side against a peer that goes away early: must return, not hang
